@@ -138,7 +138,7 @@ inductive Op
   | unsub (h t : Nat)
   | packet (id : Nat) (ok : Bool) (order : List Nat)
   | setWrite (ok : Bool)
-  | armPong                                   -- a keepalive ping went unanswered so far
+  | tick                                      -- `_async_send_keep_alive` (as far as dispatch state is concerned)
 deriving Repr
 
 def stepOp (c : Cfg) (s : St) : Op → St
@@ -146,7 +146,13 @@ def stepOp (c : Cfg) (s : St) : Op → St
   | .unsub h t => { s with table := remH s.table h t }
   | .packet id ok order => (processPacket c s id ok order).1
   | .setWrite ok => { s with writeOk := ok }
-  | .armPong => if s.closed then s else { s with pongArmed := true, pendingPing := true }
+  | .tick =>
+    if s.closed then s
+    else if s.pendingPing then
+      match send s c.pingReq with
+      | (s, some _) => s
+      | (s, none) => { s with pongArmed := true, pendingPing := true }
+    else { s with pendingPing := true }
 
 def run (c : Cfg) (s : St) (ops : List Op) : St := ops.foldl (stepOp c) s
 
